@@ -140,6 +140,21 @@ func c07(run *ev.Run, tier string) {
 			s.Contents = append(s.Contents, &gen.Content{Src: filepath.Join(root, nd.Rel), Dst: "/opt/" + s.Name + "/blocks.bin"})
 			c.Feature("block-sized-payload")
 		}
+		if i%2 == 1 {
+			// destinations that differ only in the case of letters (README / readme /
+			// ReadMe): their relative order is part of the bytes
+			for k, nm := range []string{"README", "readme", "ReadMe", "Readme"} {
+				nd := &gen.Node{Rel: fmt.Sprintf("src/case-%d.txt", k), Kind: "file", Perm: 0o644, MTime: 1234567000 + int64(k), Size: 20 + k, Seed: uint64(k) + 1}
+				c.Tree.Add(nd)
+				_ = os.MkdirAll(filepath.Join(root, "src"), 0o755)
+				_ = os.WriteFile(filepath.Join(root, nd.Rel), nd.Content(), 0o644)
+				mt := time.Unix(nd.MTime, 0)
+				_ = os.Chtimes(filepath.Join(root, nd.Rel), mt, mt)
+				s.Contents = append(s.Contents, &gen.Content{Src: filepath.Join(root, nd.Rel), Dst: "/usr/share/doc/" + s.Name + "/" + nm})
+			}
+			s.Contents = append(s.Contents, &gen.Content{Type: "dir", Dst: "/var/lib/" + s.Name + "/Cache"}, &gen.Content{Type: "dir", Dst: "/var/lib/" + s.Name + "/cache"})
+			c.Feature("case-only-differences")
+		}
 		if i%8 == 5 {
 			// several hundred entries: metadata members (.MTREE, md5sums, rpm header
 			// arrays) grow beyond the compressors' block sizes
@@ -258,7 +273,15 @@ func c07(run *ev.Run, tier string) {
 						keep = append(keep, l)
 					}
 					y = strings.Join(keep, "\n")
-					env = append(env, "SOURCE_DATE_EPOCH="+strconv.FormatInt(cc.c.Spec.MTime, 10))
+					sde := strconv.FormatInt(cc.c.Spec.MTime, 10)
+					if vi%2 == 0 {
+						sde = fmt.Sprintf("%012d", cc.c.Spec.MTime) // zero padded: still the same decimal number
+					}
+					env = append(env, "SOURCE_DATE_EPOCH="+sde)
+				} else {
+					// the variable only stands in for an unset mtime: a configured mtime
+					// is what the package carries, whether the variable is earlier or later
+					env = append(env, "SOURCE_DATE_EPOCH="+[]string{"946684800", "2000000000", "0"}[vi%3])
 				}
 				cfgp := filepath.Join(root, fmt.Sprintf("nfpm-%d.yaml", vi))
 				_ = os.WriteFile(cfgp, []byte(y), 0o644)
